@@ -51,5 +51,67 @@ CLAIMS = {
              'interval arithmetic, last_day_of_month and the 10 mixed comparison impls are proved over the contracts.',
              'Verus delegation contracts + agreement laws'),
 }
-PENDING = 'machinery for this property is not built yet in this revision (Kani harness family); see DESIGN.md'
-NOT_APPLICABLE = {k: PENDING for k in ['C04', 'C05', 'C06', 'C14', 'C15', 'C18', 'C19']}
+
+def K(category, text, technique, note):
+    return {'category': category, 'technique': technique, 'text': text, 'note': note}
+
+K_NOTE = ('Trusted: Kani 0.68 / CBMC 6.11 and their bit-precise model of Rust integers and IEEE-754; every contract stub used by a harness '
+          'is listed in the evidence file with the obligation that discharges it (Verus or Kani); chrono::Local::now, once_cell::Lazy and '
+          'serde dispatch are assumed as stated there. Harnesses whose name ends in _bounded are bounded stand-ins (bound in evidence), run and '
+          'required to pass but never counted as proved.')
+
+CLAIMS.update({
+    'C04': V('value -> field record is proved in Verus for all six types (From<T> for NaiveDateTime); record -> text is proved by Kani in two '
+             'layers: every table helper against arithmetic for EVERY index it can receive, and Formatter::format over a symbolic token x every '
+             'field record per type with the helpers replaced by markers (which helper, applicability error, sign once, year/fraction/blanks '
+             'rendered directly). Concatenation over multi-token pictures is bounded (thorough tier: two tokens).',
+             'Verus contracts (value->record) + Kani full-domain harnesses (record->text, modular with helper markers)', K_NOTE),
+    'C05': V('record -> value (TryFrom<NaiveDateTime> x6, microsecond carry, exact errors) is proved in Verus for every field record; text -> record is '
+             'BOUNDED: scanner contracts on every input up to 8-12 bytes and parse_internal on every one-token picture with ASCII text <= 6 bytes and a '
+             'symbolic clock, against a reference written from the property. Multi-field pictures are not reached end to end '
+             '(argued by induction over the field list, not an obligation).',
+             'Verus contracts (record->value) + Kani scanner contracts and one-token parse against a reference (bounded)', K_NOTE),
+    'C06': V('The value <-> field-record halves of the round trip are proved in Verus for every value of the six types (laws law_c06_*); the text half '
+             '(format then parse of the same picture) is not reached end to end: it is covered per token by the C04 rendering and C05 one-token parse '
+             'obligations, which use the same reference semantics. Stated as such in evidence.coverage.not_reached.',
+             'Verus laws over contracts (value<->record inverse); text half via C04/C05 obligations', K_NOTE),
+    'C14': K('proof', 'Everything after the multiply/divide is proved for EVERY double (unit and zero operands make the product range over all doubles): '
+             'NaN -> invalid number, infinity -> numeric overflow, truncation toward zero, range gate. Symbolic x symbolic f64 products are beyond CBMC '
+             '(no answer in 20 min); the contract harnesses for them live in the thorough tier and are reported undecided when they time out.',
+             'Kani full-domain harnesses on the classification/truncation/range logic; operand-restricted harnesses for exactness', K_NOTE),
+    'C15': V('Compact form: for each of the six types, decoding EVERY raw i32/i64 is Ok exactly when in range (Oracle date: delegation to the Verus-proved '
+             'checked constructor) and encoding writes exactly the raw count (Kani, full domain); value == raw count round trip is a Verus law. '
+             'Text form: the six layouts are not executed end to end (Kani cannot compile once_cell::Lazy); covered per token by C04/C05 and by the '
+             'Verus TryFrom<NaiveDateTime> contracts (any accepted text yields an in-range value).',
+             'Kani full-domain harnesses on the real Serialize/Deserialize impls (compact form) + Verus laws', K_NOTE),
+    'C18': K('proof', 'With chrono::Local::now replaced by a symbolic clock built through chrono\'s own constructors: Date/Timestamp/OracleDate::now and '
+             'TryFrom<Time> report the clock for every clock in years 1..9999 and fail outside (complete). Defaulting of missing fields, year completion '
+             'and clock independence are checked by the bounded one-token parse obligation (symbolic clock, text <= 6 bytes).',
+             'Kani with a stubbed symbolic clock; bounded one-token parse against a reference', K_NOTE),
+    'C19': K('model_checking', 'Bounded: FormatParser against a reference longest-match tokenizer written from the property, on EVERY byte string of length <= 5 '
+             '(quick) / 6 (thorough), first token of every 8-byte window, blank runs 1..600, the 36/37 token limit. No unbounded obligation exists for '
+             'this property (the lexer is a loop over an input of arbitrary length).',
+             'CBMC bounded model checking of the real lexer against a reference tokenizer (bounds stated)', K_NOTE),
+})
+for k in ('C01', 'C02', 'C03', 'C07', 'C08', 'C10', 'C11', 'C13', 'C16', 'C17'):
+    CLAIMS[k]['note'] = CLAIMS[k]['note'] + ' ' + K_NOTE
+NOT_APPLICABLE = {}
+
+NOT_REACHED = {
+    'C02': ['parse and text-form deserialisation end to end (every successful parse returns through the Verus-proved TryFrom<NaiveDateTime>, which yields in-range values only)',
+            'symbolic x symbolic f64 products in mul_f64/div_f64 (the range gate after the product is proved for every double)'],
+    'C03': ['inputs longer than the stated byte bounds for the lexer, scanners and one-token parse; multi-token pictures in parse',
+            'allocation-failure paths (try_reserve) and core::fmt internals reached by interval day counts >= 1000',
+            'LazyFormat / Display::to_string (std ToString panics on Err by design; the property speaks of the text sink)'],
+    'C04': ['pictures of more than two tokens end to end (concatenation is argued from the loop over fields)',
+            'interval day counts >= 1000 (core::fmt)'],
+    'C05': ['pictures of more than one token end to end; text longer than 6 bytes through parse_internal',
+            'seven-to-nine digit fraction rounding runs only in the thorough tier'],
+    'C06': ['format-then-parse executed end to end on any picture (text half covered per token by C04/C05 obligations)'],
+    'C08': ['Timestamp::add_days for offsets whose product with 86 400 000 000 is inexact (the logic after the product is proved for every double)'],
+    'C14': ['symbolic x symbolic f64 multiply/divide (thorough-tier harnesses, expected to time out); the 2^-52 relative-error clause is IEEE-754\'s guarantee for one correctly rounded operation (assumed)'],
+    'C15': ['the text form end to end (once_cell::Lazy cannot be compiled by Kani); serde dispatch glue'],
+    'C16': ['sub_date (f64 quotient) and add_days offsets with inexact products: thorough tier only'],
+    'C18': ['chrono::Local::now itself; pictures of more than one token; text longer than 6 bytes'],
+    'C19': ['pictures longer than 6 bytes (5 in the quick tier) except blank runs up to 600; 36/37 token limit on one concrete picture family'],
+}
